@@ -109,6 +109,30 @@ var c13Bodies = []c13Body{
 		[]any{l(m("t", "y")), l(m("t", "x"))}},
 }
 
+// further body schemas of the thorough tier: three alternatives, compositions inside compositions and below a property,
+// objects inside arrays inside an alternative that fails only after the array was visited
+var c13BodiesThorough = []c13Body{
+	{"oneOf-three-objects", m("oneOf", l(
+		m("type", "object", "properties", m("k", m("type", "string", "enum", l("x")), "dx", m("type", "string", "default", "DX")), "required", l("k"), "additionalProperties", false),
+		m("type", "object", "properties", m("k", m("type", "string", "enum", l("y")), "dy", m("type", "string", "default", "DY")), "required", l("k"), "additionalProperties", false),
+		m("type", "object", "properties", m("k", m("type", "string", "enum", l("z")), "dz", m("type", "boolean", "default", false)), "required", l("k"), "additionalProperties", false))),
+		[]any{m("k", "x"), m("k", "y"), m("k", "z"), m("k", "w"), m("k", "y", "dy", "given")}},
+	{"allOf-with-oneOf-inside", m("allOf", l(
+		m("type", "object", "properties", m("a", m("type", "integer", "default", 1.0))),
+		m("oneOf", l(
+			m("type", "object", "properties", m("k", m("type", "string", "enum", l("x")), "dx", m("type", "string", "default", "DX")), "required", l("k")),
+			m("type", "object", "properties", m("k", m("type", "string", "enum", l("y")), "dy", m("type", "string", "default", "DY")), "required", l("k")))))),
+		[]any{m("k", "x"), m("k", "y", "a", 2.0), m("k", "z")}},
+	{"oneOf-below-a-property", m("type", "object", "properties", m("top", m("type", "string", "default", "T"), "p", m("anyOf", l(
+		m("type", "object", "properties", m("k", m("type", "string", "enum", l("x")), "dx", m("type", "string", "default", "DX")), "required", l("k")),
+		m("type", "object", "properties", m("k", m("type", "string", "enum", l("y")), "dy", m("type", "string", "default", "DY")), "required", l("k")))))),
+		[]any{m(), m("p", m("k", "x")), m("p", m("k", "y"), "top", "given"), m("p", m("k", "z"))}},
+	{"oneOf-objects-holding-arrays", m("oneOf", l(
+		m("type", "object", "properties", m("lines", m("type", "array", "items", m("type", "object", "properties", m("qty", m("type", "integer", "default", 100.0)))), "type", m("type", "string", "enum", l("bulk"))), "required", l("type")),
+		m("type", "object", "properties", m("lines", m("type", "array", "items", m("type", "object", "properties", m("unit", m("type", "string", "default", "pc")))), "type", m("type", "string", "enum", l("single"))), "required", l("type")))),
+		[]any{m("type", "single", "lines", l(m(), m("unit", "kg"))), m("type", "bulk", "lines", l(m())), m("type", "single"), m("type", "other", "lines", l(m()))}},
+}
+
 type c13ArrStyle struct {
 	name    string
 	style   string
@@ -243,7 +267,11 @@ func init() {
 			if c.cp {
 				c.cpV = x.Choose(2)
 			}
-			c.body = explore.Pick(x, c13Bodies)
+			if r.Tier == "thorough" {
+				c.body = explore.Pick(x, append(append([]c13Body{}, c13Bodies...), c13BodiesThorough...))
+			} else {
+				c.body = explore.Pick(x, c13Bodies)
+			}
 			c.bi = x.Choose(len(c.body.values))
 			c.skip = x.Bool()
 			c.auth = x.Choose(3)
